@@ -69,7 +69,7 @@ Proof. exact block_roundtrip. Qed.
 Print Assumptions C01_block.
 
 (* ---- the table level: the whole of C01 ---- *)
-From RT Require Import Model.Writer Model.Reader Proofs.TableProofs.
+From RT Require Import Model.Writer Model.Reader Proofs.WriterGuard Proofs.TableProofs.
 
 (* For any sorted set of ref records and reflog records in the writer's
    documented domain, under any write configuration (block size, restart
@@ -99,3 +99,20 @@ Print Assumptions C01_roundtrip.
    format defined in Gallina) meets all three, so the theorem is not vacuous *)
 Definition C01_nonvacuous := table_roundtrip_stored.
 Print Assumptions C01_nonvacuous.
+
+(* "accepts" means accepts: once every AddRef / AddLog has succeeded, writing the index of
+   the ref section and of the log section cannot hit the writer's "fail on fresh block"
+   panic (the pinned writer accepted records whose index entry could not fit a block and
+   panicked in Close; fix W7 + model guard index_entry_fits).  index_room: the table stays
+   below 2^64 bytes, so that a block position needs at most the 10 bytes the guard reserves *)
+Theorem C01_index_emission_never_panics : forall deflate cfg mn mx refs logs st0 st1 st2,
+  w_new cfg = Ok st0 -> add_refs deflate (set_limits st0 mn mx) refs = Ok st1 ->
+  (index_room deflate st1 -> finish_section deflate st1 <> Panic site_idx_fresh) /\
+  (add_logs deflate st1 logs = Ok st2 -> index_room deflate st2 ->
+     finish_section deflate st2 <> Panic site_idx_fresh).
+Proof.
+  intros deflate cfg mn mx refs logs st0 st1 st2 HN HA. split.
+  - exact (ref_section_index_no_panic deflate cfg mn mx refs st0 st1 HN HA).
+  - intros HL. exact (log_section_index_no_panic deflate cfg mn mx refs logs st0 st1 st2 HN HA HL).
+Qed.
+Print Assumptions C01_index_emission_never_panics.
